@@ -72,6 +72,14 @@ func c02CheckStep(prefix string, r *v1beta1.Rollout, pre, post *v1beta1.CommonSt
 		// the persisted cursor does not fabricate a step-jump request: nextStepIndex follows the new current step
 		verifrt.Assert(post.NextStepIndex == util.NextBatchIndex(r, post.CurrentStepIndex), prefix+".advanceLeavesNoJumpRequestBehind")
 	}
+	// C04: a step without traffic that replaces every stable pod of a partition-style workload follows steps that may
+	// have pinned the stable Service: the workload is only touched (the BatchRelease is driven) after the clean-up in
+	// front of the step — which un-pins the stable Service — has been run in this reconcile and reported done
+	if allowLastFull && hasTraffic && !stepHasTraffic && v1beta1.IsRealPartition(r) && c02StepPods(cur, wlReplicas) >= wlReplicas && calls.count(stubRunBatchRelease) > 0 {
+		verifrt.Cover("full-step-without-traffic-upgrades")
+		done, failed, called := calls.last(stubFinalisingTrafficRouting)
+		verifrt.Assert(called && done && !failed && calls.index(stubFinalisingTrafficRouting) < calls.index(stubRunBatchRelease), "C04.step.cleanupDoneBeforeAllStablePodsReplaced")
+	}
 	if preS == postS {
 		// C07: a wait that no watch event will end comes with a wake-up in the future — the grace wait of the
 		// TrafficRouting sub-state, and a pause with a duration that has not elapsed yet
